@@ -37,6 +37,10 @@ package consolidation
 // i.e. every evicted pod has been re-allocated/pipelined by the same statement.
 //@ define noneReleasing(b *scn.BaseScenario) bool = forall k common_info.PodGroupID, i int :: k in b.victims && 0 <= i && i < len(b.victims[k].Tasks) ==> b.victims[k].Tasks[i].Status != pod_status.Releasing
 
+// the same statement quantified over victim records instead of map keys (equivalent; easier for the solver in the converse direction)
+//@ define isVictim(b *scn.BaseScenario, v *api.VictimInfo) bool = exists k in b.victims :: b.victims[k] == v
+//@ define noneReleasingV(b *scn.BaseScenario) bool = forall v *api.VictimInfo, i int :: isVictim(b, v) && 0 <= i && i < len(v.Tasks) ==> v.Tasks[i].Status != pod_status.Releasing
+
 //@ func allPodsReallocated
 //@   props C06
 //@   requires scenarioOK(scenario)
@@ -48,6 +52,8 @@ package consolidation
 //@   loop 2
 //@     invariant 0 - 1 <= rangeindex && rangeindex < len(victim.Tasks)
 //@     invariant forall i int :: 0 <= i && i <= rangeindex ==> victim.Tasks[i].Status != pod_status.Releasing
+//@     invariant isVictim(baseOf(scenario), victim)
 //@     decreases len(victim.Tasks) - rangeindex
-//@   ensures [acceptsIffAllReplaced] result == noneReleasing(baseOf(scenario))
+//@   ensures [acceptedOnlyIfAllReplaced] result ==> noneReleasing(baseOf(scenario))
+//@   ensures [allReplacedAccepted] noneReleasingV(baseOf(scenario)) ==> result
 //@ end
